@@ -49,10 +49,9 @@ def snapshot_repo(dst):
         p = os.path.join(REPO, name)
         if os.path.exists(p):
             shutil.copyfile(p, os.path.join(dst, name))
-    for crate in ["insim_core", "insim", "insim_pth", "insim_smx"]:
+    for crate in ["insim_core", "insim", "insim_pth", "insim_smx", "examples"]:
         shutil.copytree(os.path.join(REPO, crate), os.path.join(dst, crate), copy_function=shutil.copyfile,
                         ignore=shutil.ignore_patterns("target"))
-    os.makedirs(os.path.join(dst, "examples"), exist_ok=True)
     now = time.time()
     for root, _, files in os.walk(dst):
         for f in files:
@@ -250,7 +249,7 @@ def parse_kani_log(text, allowed_fail=None):
 
 
 def kani_cmd(harness, tdir, playback=False):
-    cmd = ["cargo", "kani", "-Z", "stubbing", "--exact", "--harness", harness.qualified, "--target-dir", tdir]
+    cmd = ["cargo", "kani", "-Z", "stubbing"] + list(getattr(harness, "kani_flags", [])) + ["--exact", "--harness", harness.qualified, "--target-dir", tdir]
     if playback:
         cmd += ["-Z", "concrete-playback", "--concrete-playback=print"]
     return cmd
@@ -373,7 +372,7 @@ def write_evidence(prop, tier, seed, results, wall, violations, notes, harnesses
                     "covers": "%d/%d" % (r["covers_sat"], r["covers_total"]),
                     "verification_s": r["verif_time"], "solver_s": round(r["solver_s"], 2), "wall_s": r["wall_s"],
                     "sat_vars": r["sat_vars"], "sat_clauses": r["sat_clauses"], "stubs": r["stubs"], "peak_rss_mb": r.get("peak_rss_mb"),
-                    "unwind": harnesses[r["name"]].unwind, "bounds": harnesses[r["name"]].bounds,
+                    "unwind": harnesses[r["name"]].unwind, "bounds": harnesses[r["name"]].bounds, "kani_flags": harnesses[r["name"]].kani_flags,
                     "functions": harnesses[r["name"]].functions,
                 } for r in results
             ],
